@@ -2898,10 +2898,11 @@ class quantized_po2(base_quantizer.BaseQuantizer):  # pylint: disable=invalid-na
 
   def __str__(self):
     flags = [str(self.bits)]
-    if self.max_value is not None or self.use_stochastic_rounding:
-      flags.append(str(int(self.max_value)))
+    if self.max_value is not None:
+      flags.append(str(self.max_value))
     if self.use_stochastic_rounding:
-      flags.append(str(int(self.use_stochastic_rounding)))
+      flags.append(
+          "use_stochastic_rounding=" + str(int(self.use_stochastic_rounding)))
     if self.quadratic_approximation:
       flags.append(
           "quadratic_approximation=" + str(int(self.quadratic_approximation)))
@@ -3042,12 +3043,13 @@ class quantized_relu_po2(base_quantizer.BaseQuantizer):  # pylint: disable=inval
 
   def __str__(self):
     flags = [str(self.bits)]
-    if self.max_value is not None or self.use_stochastic_rounding:
-      flags.append(str(int(self.max_value)))
+    if self.max_value is not None:
+      flags.append(str(self.max_value))
     if self.negative_slope:
-      flags.append(str(self.negative_slope))
+      flags.append("negative_slope=" + str(self.negative_slope))
     if self.use_stochastic_rounding:
-      flags.append(str(int(self.use_stochastic_rounding)))
+      flags.append(
+          "use_stochastic_rounding=" + str(int(self.use_stochastic_rounding)))
     if self.quadratic_approximation:
       flags.append(
           "quadratic_approximation=" + str(int(self.quadratic_approximation)))
